@@ -77,6 +77,8 @@ def scenario(seed, snap, duration, nresets, suspending=False):
                 await asyncio.sleep(rng.choice([3.0, 9.0, 21.0]))
                 v += 1
                 st.peer.spontaneous("DisplayedTempG", 60.0 + (v % 40))
+                if rng.random() < 0.2:
+                    loop.jump(rng.choice([0.2, 0.7, 2.5]))          # event-loop stall: the clock moves while nothing runs
         lt = loop.create_task(spa_life())
         rt, wt = loop.create_task(resetter()), loop.create_task(watcher())
         await asyncio.sleep(duration)
